@@ -112,10 +112,44 @@ func lenTestEmptyEdges(fn *ssa.Function, pred func(ssa.Value) bool) (map[[2]*ssa
 	return edges, ifs
 }
 
+// paramFallback: when a parameter was renamed, identify it by its type and its position among the
+// parameters of that type (rules must not depend on identifier spelling).
+var paramFallback = map[string]struct {
+	typ string // suffix of the parameter's type string
+	nth int    // 0-based occurrence among parameters with that type
+}{
+	"skipData": {"bool", 0}, "noControl": {"bool", 0}, "noData": {"bool", 1},
+	"arg": {"reflect.Type", 1}, "input": {"reflect.Type", 0},
+	"completedTasks": {"[]*github.com/cloudwego/eino/compose.task", 0}, "completeTasks": {"[]*github.com/cloudwego/eino/compose.task", 0}, "nextTasks": {"[]*github.com/cloudwego/eino/compose.task", 0},
+	"nodes": {"map[string]*github.com/cloudwego/eino/compose.chanCall", 0},
+	"err":    {"error", 0},
+	"optMap": {"map[string][]any", 0}, "checkPointID": {"*string", 0},
+	"interruptBeforeNodes": {"[]string", 0},
+	"subGraphInterrupts":   {"map[string]*github.com/cloudwego/eino/compose.subGraphInterruptError", 0},
+	"tasks":                {"[]github.com/cloudwego/eino/compose.toolCallTask", 0},
+	"interruptAfterNodes":  {"*[]string", 1},
+	"key": {"string", 0}, "startNode": {"string", 0}, "endNode": {"string", 1},
+}
+
 func paramIndex(fn *ssa.Function, name string) int {
 	for i, p := range fn.Params {
 		if p.Name() == name {
 			return i
+		}
+	}
+	if fb, ok := paramFallback[name]; ok {
+		n := 0
+		for i, p := range fn.Params {
+			if i == 0 && fn.Signature.Recv() != nil {
+				continue
+			}
+			ts := types.TypeString(p.Type(), nil)
+			if ts == fb.typ || strings.HasSuffix(ts, fb.typ) && (len(ts) == len(fb.typ)) {
+				if n == fb.nth {
+					return i
+				}
+				n++
+			}
 		}
 	}
 	undecidedf("anchor: parameter %q of %s not found", name, fn.String())
